@@ -9,7 +9,7 @@
    [pjson_of S o name m = Some j]: m fits the schema and holds no NaN / +-Inf (those have no JSON spelling:
    [C08_no_image_iff_nonfinite]; the conversion must fail there). *)
 From Coq Require Import ZArith List Bool Lia.
-From DG Require Import CaseFormat ProtoWireRef ProtoMsg Json Num Base64 P2J P2JQuirk P2JProofs.
+From DG Require Import CaseFormat ProtoWireRef ProtoMsg Json Num Base64 P2J P2JQuirk P2JProofs P2JBytes P2JBytesProofs.
 Import ListNotations.
 Local Open Scope Z_scope.
 
@@ -189,3 +189,65 @@ Example overrun_selector :
   overrun [(1, VList false [VMsg [(1, VList false [VBytes K_STRING [120]])]; VMsg [(1, VList false [VBytes K_STRING [121]])]])] = true /\
   overrun [(1, VList false [VMsg [(1, VList false [VBytes K_STRING [120]])]])] = false.
 Proof. vm_compute. split; reflexivity. Qed.
+
+
+(* ================================================================ ALGORITHM level (model/P2JBytes.v)
+   [p2j_walk] mirrors conv/p2j/impl.go as one pass over the BYTES that appends TEXT (message loop with comma flag, values
+   read by descriptor kind, packed payloads, unpacked runs and map runs bounded by the enclosing message, key quoting,
+   Int642String, checkFinite, unknown fields skipped or refused).  On the canonical encoding of every well-formed message
+   it produces exactly the printed denotation.  Hypothesis [pj_of S o name m = Some p]: m fits the schema with map key
+   kinds JSON can stringify (integer kinds, bool, string) - [wf_msg] alone also admits float-keyed maps, which proto3
+   does not have. *)
+Theorem p2j_walk_refines_spec : forall S o name m fuel p,
+  wf_msg S name m = true -> pval_bytes_okb (VMsg m) = true -> (depth (VMsg m) <= fuel)%nat ->
+  pj_of S o name m = Some p ->
+  p2j_walk fuel o S name (encode_msg m) = option_map json_print (pjson_of S o name m).
+Proof. intros S o. exact (walk_is_print_of_spec o S). Qed.
+Print Assumptions p2j_walk_refines_spec.
+
+(* the walk fails exactly when the message has no JSON image (a NaN / +-Inf somewhere: checkFinite) *)
+Theorem p2j_walk_fails_iff_no_image : forall S o name m fuel p,
+  wf_msg S name m = true -> pval_bytes_okb (VMsg m) = true -> (depth (VMsg m) <= fuel)%nat ->
+  pj_of S o name m = Some p ->
+  (p2j_walk fuel o S name (encode_msg m) = None <-> pjson_of S o name m = None).
+Proof.
+  intros S o name m fuel p Hwf Hb Hd Hp. rewrite (walk_is_print_of_spec o S name m fuel p Hwf Hb Hd Hp).
+  destruct (pjson_of S o name m); cbn [option_map]; split; intros H; try discriminate H; reflexivity.
+Qed.
+Print Assumptions p2j_walk_fails_iff_no_image.
+
+(* never malformed at algorithm level: whenever the walk succeeds, its text parses (RFC 8259) to exactly the denotation *)
+Theorem p2j_walk_output_valid : forall S o name m fuel p t,
+  wf_msg S name m = true -> pval_bytes_okb (VMsg m) = true -> schema_bytes_okb S = true ->
+  (depth (VMsg m) <= fuel)%nat -> pj_of S o name m = Some p ->
+  p2j_walk fuel o S name (encode_msg m) = Some t ->
+  pjson_of S o name m = Some (pj_json p) /\ json_parse t = Some (pj_json p).
+Proof. intros S o. exact (walk_output_valid o S). Qed.
+Print Assumptions p2j_walk_output_valid.
+
+(* unknown fields where encoders put them (after the declared fields of the top-level message): every record whose
+   number is not declared is skipped - the text is that of the message without them - or, under DisallowUnknownField,
+   the conversion fails as soon as there is one *)
+Theorem p2j_walk_unknown_tail : forall S o name md m u fuel p,
+  find_msg S name = Some md ->
+  wf_msg S name m = true -> pval_bytes_okb (VMsg m) = true -> (depth (VMsg m) <= fuel)%nat ->
+  pj_of S o name m = Some p -> forallb (unknown_rec md) u = true ->
+  p2j_walk fuel o S name (encode_msg m ++ wenc u) =
+  if o_disallow_unknown o && negb (match u with [] => true | _ => false end) then None
+  else if pj_finite p then Some (json_print (pj_json p)) else None.
+Proof. intros S o. exact (walk_unknown_tail o S). Qed.
+Print Assumptions p2j_walk_unknown_tail.
+
+(* the walk on the example message: Int642String on and off, and the unknown-field rule on the wire
+   (field 99 is not declared: skipped, or the conversion fails under DisallowUnknownField) *)
+Example ex_walk_is_print :
+  p2j_walk 3 exO exS [77] (encode_msg exM) = option_map json_print (pjson_of exS exO [77] exM) /\
+  p2j_walk 3 (mk_p2j_opts true false) exS [77] (encode_msg exM) = option_map json_print (pjson_of exS (mk_p2j_opts true false) [77] exM).
+Proof. vm_compute. split; reflexivity. Qed.
+Example ex_walk_unknown :
+  let bs := encode_msg [(5, VScalar K_FIXED32 7)] ++ wenc [(99, WVarint 1)] ++ encode_msg [(6, VBytes K_BYTES [1])] in
+  p2j_walk 3 exO exS [77] bs = Some [123;34;102;34;58;55;44;34;98;121;34;58;34;65;81;61;61;34;125] /\     (* {"f":7,"by":"AQ=="} *)
+  p2j_walk 3 (mk_p2j_opts false true) exS [77] bs = None.
+Proof. vm_compute. split; reflexivity. Qed.
+Example ex_walk_nan : p2j_walk 3 exO exS [77] (encode_msg [(4, VList true [VScalar K_FLOAT 2143289344])]) = None.
+Proof. vm_compute. reflexivity. Qed.
